@@ -194,7 +194,7 @@ PROPS['C18'] = {
                    '(no other cell, register or flag changes; no address outside 1 MiB; no abort)',
     'bounds': 'input line: lengths 0, 1, 2 enumerated with symbolic content (quick), + 3 and 6 (AH=1) in the thorough tier; CX <= 4 / 8, DL <= 4 / 8 for the output loops; capacity byte, DS:DX, ES:BP, memory unconstrained',
     'outside': 'AH validation, "unsupported ... stops the program" and the int n dispatch (inside CMDDriver::run); real terminal behaviour; longer input lines (std String code over a symbolic length plus a symbolic memory index does not finish on any back end)',
-    'backends': [(r'int10', ['sat-arrays', ('z3', 'cvc5')]), (r'.*', [('z3', 'cvc5'), 'sat-arrays'])],
+    'backends': [(r'int10_count', ['sat', 'z3']), (r'int10', ['sat-arrays', ('z3', 'cvc5')]), (r'.*', [('z3', 'cvc5'), 'sat-arrays'])],
     'timeout': {'quick': 600, 'thorough': 2400},
     'assumptions': ['in the scratch copy std::io::stdin().read_line is textually replaced by a stub and print!/println! are shadowed by logging macros (lib/gen.py); input is 7-bit ASCII without embedded line terminators'],
     'level_text': 'bounded model checking of the service routines for every register / memory state and every input line within the bound',
